@@ -103,6 +103,7 @@ func TestVerif_C38(t *testing.T) {
 	hs := c38Histories(depth)
 	var mu sync.Mutex
 	var wg sync.WaitGroup
+	nSetup := 0
 	sem := make(chan struct{}, 12)
 	for i, h := range hs {
 		wg.Add(1)
@@ -110,9 +111,22 @@ func TestVerif_C38(t *testing.T) {
 		go func(i int, h string) {
 			defer wg.Done()
 			defer func() { <-sem }()
-			obs, steps := c38Run(t, r, h)
+			var obs, setup string
+			var steps int
+			for attempt := 0; attempt < 3; attempt++ {
+				if obs, steps, setup = c38Run(t, r, h); setup == "" {
+					break
+				}
+				t.Logf("history %q attempt %d: %s", h, attempt, setup)
+			}
 			mu.Lock()
 			defer mu.Unlock()
+			if setup != "" {
+				// the history could not be carried out: no verdict, not a failure
+				nSetup++
+				r.Cap("history %q could not be carried out three times: %s", h, setup)
+				return
+			}
 			r.Eval(1)
 			r.Transition(steps)
 			r.Distinct(h + "=>" + obs)
@@ -123,9 +137,24 @@ func TestVerif_C38(t *testing.T) {
 	}
 	wg.Wait()
 	r.State(len(hs))
+	r.Set("histories_not_carried_out", nSetup)
+	if nSetup == len(hs) {
+		t.Fatalf("harness: no history at all could be carried out")
+	}
 }
 
-func c38Run(t *testing.T, r *kit.Run, h string) (string, int) {
+// c38Run runs one history on a fresh Store. setup != "" means the harness could not
+// carry the history out (a step of the set-up failed): no verdict.
+func c38Run(t *testing.T, r *kit.Run, h string) (retObs string, retSteps int, setup string) {
+	defer func() {
+		if p := recover(); p != nil {
+			if msg, ok := p.(string); ok && strings.HasPrefix(msg, "harness:") {
+				setup = msg
+				return
+			}
+			panic(p)
+		}
+	}()
 	s, ln := mustNewStoreAtPathsLn(random.String(), kit.Scratch(t), false)
 	defer ln.Close()
 	must := func(what string, err error) {
@@ -280,7 +309,7 @@ func c38Run(t *testing.T, r *kit.Run, h string) (string, int) {
 		lastNonRead = c38OpName[op]
 	}
 	linRead(len(h))
-	return strings.Join(obs, ","), steps
+	return strings.Join(obs, ","), steps, ""
 }
 
 func c38Poll(h, what string, ok func() bool) {
